@@ -1,3 +1,3 @@
 From Coq Require Import ExtrOcamlBasic.
 From HV Require Import Base.BSet Gen.Tables Text.TypeOrder Topo.Dump Topo.WFCheck Topo.Obj Topo.Restrict.
-Extraction "c08_model.ml" wf_check restrict_spec_check restrict_rc_check einval_identity model_run impl_view spec_dropped dont_merge_check.
+Extraction "c08_model.ml" wf_check restrict_spec_check restrict_rc_check einval_identity model_run impl_view spec_dropped dont_merge_check group_depths_check.
